@@ -424,6 +424,10 @@ def _function_incompatibilities(old_function: Function, new_function: Function) 
     param_kinds = {param.kind for param in new_function.parameters}
     has_variadic_args = ParameterKind.var_positional in param_kinds
     has_variadic_kwargs = ParameterKind.var_keyword in param_kinds
+    old_param_kinds = {param.kind for param in old_function.parameters}
+    old_has_variadic_args = ParameterKind.var_positional in old_param_kinds
+    old_has_variadic_kwargs = ParameterKind.var_keyword in old_param_kinds
+    old_positional_count = sum(param.kind in _POSITIONAL for param in old_function.parameters)
 
     for old_index, old_param in enumerate(old_function.parameters):
         # Check if the parameter was removed.
@@ -472,6 +476,12 @@ def _function_incompatibilities(old_function: Function, new_function: Function) 
                     old_param.kind is ParameterKind.var_positional and not has_variadic_args,
                     # Variadic keyword to non-variadic, without variadic keyword left.
                     old_param.kind is ParameterKind.var_keyword and not has_variadic_kwargs,
+                    # To positional-or-keyword, at a position that old calls could fill positionally
+                    # while passing the same name as keyword (to the keyword-only parameter,
+                    # or into the old variadic keyword): the two values now collide.
+                    new_param.kind is ParameterKind.positional_or_keyword
+                    and (old_param.kind is ParameterKind.keyword_only or old_has_variadic_kwargs)
+                    and (new_param_names.index(old_param.name) < old_positional_count or old_has_variadic_args),
                 ),
             )
             if incompatible_kind:
